@@ -202,12 +202,12 @@ def run_op(ctx, sp, op, values, bundle, prev_next, shared, persist=None):
     allsyms = list(syms)
     vals_all = list(vals_in)
     free = cs.symvar(cs.veccat(*outs)) if outs else []
-    known = {s.name() for x in syms for s in cs.symvar(x)}
+    known = [s for x in syms for s in cs.symvar(x)]  # by identity: distinct symbols may carry the same name
     for s in free:
-        if s.name() not in known:
+        if not any(cs.is_equal(s, t) for t in known):
             allsyms.append(s)
             vals_all.append(cs.DM(np.full((s.numel(), 1), 0.5)))
-            known.add(s.name())
+            known.append(s)
     f = guarded(ctx, f"{tag}-function", lambda: cs.Function("f", allsyms, outs))
     if crashed(f):
         return None, sup
